@@ -180,7 +180,11 @@ class ConstrainedFrontend(Frontend):
 
         splitted = []
         for i in constraints:
-            splitted.extend(list(i.args) if i.op == "And" else [i])
+            if i.op == "And" and not any(isinstance(a, SimplificationAvoidanceAnnotation) for a in i.annotations):
+                splitted.extend(i.args)
+            else:
+                # (a conjunction that asks not to be simplified stays the constraint it is)
+                splitted.append(i)
 
         log.debug("... splitted of size %d", len(splitted))
 
